@@ -29,6 +29,7 @@ def _canon_compare(n):
 
 _DEPTH = [0]
 EXTRA_DEFS = {}
+EXPR_HELPERS = {}   # name -> (parameter names, returned expression) of new helpers that only validate and return
 
 
 def _single_defs(root):
@@ -106,8 +107,38 @@ def _match(p, n, b):
             return _match(p, _DEFS[n.id], b)
         finally:
             _DEPTH[0] -= 1
+    if isinstance(n, ast.Call) and not isinstance(p, ast.Name) and isinstance(p, ast.expr) and _DEPTH[0] < 4:
+        # a call to a helper (new to the reviewed tree) that only checks its arguments and returns an expression
+        # stands for that expression
+        fn = n.func.id if isinstance(n.func, ast.Name) else (
+            n.func.attr if isinstance(n.func, ast.Attribute) and isinstance(n.func.value, ast.Name) and
+            n.func.value.id in ('self', 'cls') else None)
+        h = EXPR_HELPERS.get(fn)
+        if h is not None and not n.keywords and not any(isinstance(a, ast.Starred) for a in n.args) and \
+                len(n.args) <= len(h[0]):
+            direct = None
+            if isinstance(p, ast.Call):
+                direct = _match_fields(p, n, b)
+            if direct is not None:
+                return direct
+            sub = dict(zip(h[0], n.args))
+
+            class _S(ast.NodeTransformer):
+                def visit_Name(self, node):
+                    return sub.get(node.id, node) if isinstance(node.ctx, ast.Load) else node
+            import copy
+            body = _S().visit(copy.deepcopy(h[1]))
+            _DEPTH[0] += 1
+            try:
+                return _match(p, body, b)
+            finally:
+                _DEPTH[0] -= 1
     if isinstance(p, ast.List) and isinstance(n, ast.Tuple) and isinstance(getattr(n, 'ctx', None), ast.Load):
         n = ast.List(elts=n.elts, ctx=ast.Load())          # a literal list or tuple of words
+    return _match_fields(p, n, b)
+
+
+def _match_fields(p, n, b):
     if type(p) is not type(n):
         return None
     for fld, pv in ast.iter_fields(p):
